@@ -469,17 +469,13 @@ class Entity(object):
         disp = headers.elements('Content-Disposition')
         if disp:
             disp = disp[0]
+            # The parameter values have already been unquoted by
+            # parse_header; stripping quotes once more would eat quotes
+            # that belong to the name itself (name="\"a\"").
             if 'name' in disp.params:
                 self.name = disp.params['name']
-                if self.name.startswith('"') and self.name.endswith('"'):
-                    self.name = self.name[1:-1]
             if 'filename' in disp.params:
                 self.filename = disp.params['filename']
-                if (
-                    self.filename.startswith('"') and
-                    self.filename.endswith('"')
-                ):
-                    self.filename = self.filename[1:-1]
             if 'filename*' in disp.params:
                 # @see https://tools.ietf.org/html/rfc5987
                 try:
